@@ -553,6 +553,10 @@ class __Class(_pre.Pregex):
         if isinstance(pre2, Any):
             raise _ex.EmptyClassException(pre1, pre2)
         if isinstance(pre1, Any):
+            ranges, chars = __class__.__extract_classes(pre2.__verbose, unescape=True)
+            if len(chars) == 0 and ranges == {f"{chr(0)}-{chr(0x10FFFF)}"}:
+                # "pre2" covers every single character, thus nothing is left.
+                raise _ex.EmptyClassException(pre1, pre2)
             return ~ pre2
         if isinstance(pre1, (AnyWordChar, AnyButWordChar)) and pre1._is_global():
             raise _ex.GlobalWordCharSubtractionException(pre1)
